@@ -55,13 +55,13 @@ func (c *Ctx) field(pkgPath, typeName, fieldName string) *types.Var {
 		c.unresolved("struct " + pkgPath + "." + typeName)
 		return nil
 	}
+	if f := fieldByOld[pkgPath+"."+typeName+"."+fieldName]; f != nil {
+		return f
+	}
 	for i := 0; i < st.NumFields(); i++ {
 		if st.Field(i).Name() == fieldName {
 			return st.Field(i)
 		}
-	}
-	if f := fieldByOld[pkgPath+"."+typeName+"."+fieldName]; f != nil {
-		return f
 	}
 	c.unresolved("field " + pkgPath + "." + typeName + "." + fieldName)
 	return nil
